@@ -34,7 +34,7 @@ const DIRS: &[&str] = &["", "", "d", "d/e", "my dir", "g"];
 static COUNTER: std::sync::atomic::AtomicU64 = std::sync::atomic::AtomicU64::new(0);
 
 pub fn iwe_binary() -> PathBuf {
-    PathBuf::from(std::env::var("VERIF_IWE_BIN").unwrap_or_else(|_| "/verif/work/target-iwe/release/iwe".to_string()))
+    PathBuf::from(std::env::var("VERIF_IWE_BIN").unwrap_or_else(|_| format!("{}/work/target-iwe/release/iwe", VERIF_ROOT.as_str())))
 }
 
 fn snapshot(root: &Path) -> BTreeMap<String, (Option<Vec<u8>>, Option<std::time::SystemTime>)> {
@@ -181,7 +181,7 @@ impl Property for C19 {
             }
         }
         let n = COUNTER.fetch_add(1, std::sync::atomic::Ordering::SeqCst);
-        let root = PathBuf::from(VERIF_ROOT).join("work").join("fs").join(format!("c19-{}-{}", std::process::id(), n));
+        let root = PathBuf::from(VERIF_ROOT.as_str()).join("work").join("fs").join(format!("c19-{}-{}", std::process::id(), n));
         let lib_prefix = if case.config == 3 { "notes/" } else { "" };
         let expected = expected_notes(case);
         let old: Lib = case.notes.iter().cloned().collect();
